@@ -9,7 +9,7 @@
 (*   -simulate       random walks through the same Next                     *)
 EXTENDS StamStore, Json, SequencesExt
 
-CONSTANTS MaxRes, MaxSets, MaxAnns, MaxData, MaxKeys, Depth, Scenario, Size, Prelude, Reads, DevShift, EmitAll
+CONSTANTS MaxRes, MaxSets, MaxAnns, MaxData, MaxKeys, Depth, Scenario, Size, Prelude, Reads, DevShift, EmitAll, P1, P2
 
 VARIABLES st, hist
 
@@ -86,8 +86,17 @@ OffsetTargets ==
     IN UNION {{TB("Text", ByH(r), NoRef, o) : o \in Os(Len(st.res[r].text))} : r \in LiveRes(st)}
        \cup UNION {{TB("Ann", ByH(x), NoRef, o) : o \in Os(AnnTextLen(x))} : x \in {y \in LiveAnns(st) : HasSingleText(st.anns[y])}}
 
+\* C06: known selections are added in ascending (textual) order only, so that every *set* of known selections of
+\* the resource is reached exactly once
+RangesOf(n) == {r \in (0..n) \X (0..n) : r[1] <= r[2]}
+RangeBefore(x, y) == x[1] < y[1] \/ (x[1] = y[1] /\ x[2] < y[2])
+RelatedTargets ==
+    UNION {{TB("Text", ByH(r), NoRef, Off("B", x[1], "B", x[2])) :
+              x \in {y \in RangesOf(Len(st.res[r].text)) : \A i \in DOMAIN st.res[r].tsel : RangeBefore(st.res[r].tsel[i], y)}} : r \in LiveRes(st)}
+
 AnnotateMenu ==
-    CASE Scenario = "offsets" -> {[id |-> "", target |-> t, data |-> <<>>] : t \in OffsetTargets}
+    CASE Scenario = "related" -> {[id |-> "", target |-> t, data |-> <<>>] : t \in RelatedTargets}
+      [] Scenario = "offsets" -> {[id |-> "", target |-> t, data |-> <<>>] : t \in OffsetTargets}
       [] Scenario = "core" ->
            {[id |-> i, target |-> t, data |-> d] : i \in AnnIds, t \in SimpleTargets, d \in DataMenu}
       [] Scenario = "complex" ->
@@ -127,6 +136,8 @@ PreludeOps ==
          [] Prelude = 8 -> <<[ev |-> "AddResource", a |-> [id |-> "r1", text |-> <<11, 12, 13, 14, 21, 22, 23, 24, 31, 32, 33, 41,
                                                                                    42, 51, 61, 71, 81, 11, 12, 13, 14, 21, 22, 23>>]],
                              ann("a1", TB("Text", ById("r1"), NoRef, Off("B", 3, "B", 9)), <<>>)>>
+         \* 9: relations / related text: one text of P1 characters with whitespace inside
+         [] Prelude = 9 -> <<[ev |-> "AddResource", a |-> [id |-> "r1", text |-> SubSeq(<<11, 31, 33, 21, 51, 11>>, 1, P1)]]>>
          \* 6: metadata annotations on keys/data/sets and annotations on annotations (chain + relative offset)
          [] OTHER -> <<addres, addset, ann("a1", txt(0, 2), d1),
                        ann("", TB("Key", ById("s1"), ById("k1"), NoOffset), <<>>),
@@ -150,13 +161,17 @@ Step(ev, a) ==
 Building == Scenario # "remove"
 \* tuning steps do not change the specification state, so they are only worth generating when histories are emitted
 Tuning == ~EmitAll
-Adding == Scenario \notin {"remove", "offsets"}
+Adding == Scenario \notin {"remove", "offsets", "related", "textops"}
+\* C07: one resource per behaviour, over every text up to P1 characters of the alphabet selected by P2
+TextAlphabet == CASE P2 = 1 -> {11, 41, 12} [] P2 = 2 -> {11, 22, 32} [] P2 = 3 -> {11, 31, 21} [] OTHER -> {11, 14, 41}
+TextsUpTo(n, A) == UNION {[1..k -> A] : k \in 0..n}
 Removing == Scenario \in {"all", "remove", "core"}
 
 Next ==
     \/ Adding /\ \E i \in ResIds, t \in Texts : Step("AddResource", [id |-> i, text |-> t])
     \/ Adding /\ \E i \in SetIds : Step("AddDataset", [id |-> i])
-    \/ Building /\ \E a \in AnnotateMenu : Step("Annotate", a)
+    \/ Scenario = "textops" /\ st.res = <<>> /\ \E t \in TextsUpTo(P1, TextAlphabet) : Step("AddResource", [id |-> "r1", text |-> t])
+    \/ Building /\ Scenario # "textops" /\ \E a \in AnnotateMenu : Step("Annotate", a)
     \/ Building /\ Scenario \in {"all", "core"} /\ \E s \in SetRefs, k \in {"k1", "k2"}, v \in Vals, sf \in BOOLEAN :
           Step("InsertData", [set |-> s, key |-> ById(k), id |-> NoRef, val |-> v, safety |-> sf])
     \/ Removing /\ \E x \in AnnRefs : Step("RemoveAnnotation", [ann |-> x])
@@ -240,12 +255,85 @@ ReportOps ==
 ByteOps ==
     UNION {{RO(ev, [c |-> c, p |-> p]) : ev \in {"Utf8Byte", "ByteToChar"}, p \in 0..(4 * ContLen(c) + 2)} : c \in Containers}
 
+----------------------------------------------------------------------------
+(* C13 / C06: operator variants.  o = [op, all, negate, ws, limit]          *)
+OpRec(op, all, neg, ws, lim) == [op |-> op, all |-> all, negate |-> neg, ws |-> ws, limit |-> lim]
+\* every operator x modifier combination whose meaning the documentation defines for sets (no limit; Equals has no `all`)
+OpVariants ==
+    {OpRec("Equals", FALSE, n, FALSE, 0) : n \in BOOLEAN}
+    \cup {OpRec(op, al, n, FALSE, 0) : op \in {"Overlaps", "Embeds", "Embedded", "Before", "After", "SameBegin", "SameEnd"}, al \in BOOLEAN, n \in BOOLEAN}
+    \cup {OpRec(op, al, n, w, 0) : op \in {"Precedes", "Succeeds"}, al \in BOOLEAN, n \in BOOLEAN, w \in BOOLEAN}
+\* limits are part of the pairwise relation; they are only specified where the left-hand side is a single selection
+LimitVariants == {OpRec(op, al, n, FALSE, lim) : op \in {"Embedded", "Before", "After"}, al \in BOOLEAN, n \in BOOLEAN, lim \in {1, 2}}
+
+\* sets of at most two ranges, as sequences in textual order
+RangeSetsUpTo2(R) == {<<x>> : x \in R} \cup {p \in R \X R : RangeBefore(p[1], p[2])}
+
+RelRowOps ==
+    UNION {LET R == RangesOf(Len(st.res[r].text))
+               sets == RangeSetsUpTo2(R)
+               singles == {<<x>> : x \in R}
+               allBs == SetToSeq(sets)
+               singleBs == SetToSeq(singles)
+           IN {RO("TestRelationRow", [res |-> ByH(r), A |-> A, Bs |-> IF P2 >= 2 THEN allBs ELSE singleBs, o |-> o]) :
+                    A \in (IF P2 >= 2 THEN sets ELSE singles), o \in OpVariants}
+              \cup {RO("TestRelationRow", [res |-> ByH(r), A |-> A, Bs |-> IF P2 >= 2 THEN allBs ELSE singleBs, o |-> o]) : A \in singles, o \in LimitVariants}
+          : r \in LiveRes(st)}
+
+RelatedOps ==
+    UNION {LET R == RangesOf(Len(st.res[r].text))
+               known == Range(st.res[r].tsel)
+               singles == {<<x>> : x \in R}
+               pairs == {p \in known \X known : RangeBefore(p[1], p[2])}
+               os == SetToSeq(OpVariants)
+               ls == SetToSeq(LimitVariants)
+               row(via, A, x, o) == RO("RelatedRow", [res |-> ByH(r), via |-> via, A |-> A, ann |-> x, os |-> o])
+           IN {row("sel", A, NoRef, os) : A \in singles \cup pairs}
+              \cup {row("sel", A, NoRef, ls) : A \in singles}
+              \cup {row("ann", <<>>, ByH(x), os) : x \in {y \in LiveAnns(st) : \E i \in DOMAIN AnnText(st, y) : AnnText(st, y)[i][1] = r}}
+          : r \in LiveRes(st)}
+
+\* C07
+TextContainers ==
+    {Cont("res", ByH(r), 0, 0, NoRef) : r \in LiveRes(st)}
+    \cup UNION {{Cont("range", ByH(r), x[1], x[2], NoRef) : x \in {y \in RangesOf(Len(st.res[r].text)) : y[1] < y[2]}} : r \in LiveRes(st)}
+SegmentOps == {RO("TextOp", [c |-> c, op |-> "segmentation", needle |-> <<>>, pat |-> <<>>, frags |-> <<>>]) : c \in TextContainers}
+
+Partner(c) == CASE c = 11 -> 41 [] c = 41 -> 11 [] c = 12 -> 22 [] c = 22 -> 12 [] c = 21 -> 61 [] OTHER -> c
+TextOpOps ==
+    LET A == TextAlphabet
+        A2 == A \cup {Partner(c) : c \in A}
+        needles(S) == {<<x>> : x \in S} \cup {<<x, y>> : x \in S, y \in S}
+        T(c, op, needle, pat, frags) == RO("TextOp", [c |-> c, op |-> op, needle |-> needle, pat |-> pat, frags |-> frags])
+        G(alts, cap, opt) == [alts |-> alts, cap |-> cap, opt |-> opt]
+        a == CHOOSE x \in A : \A y \in A : x <= y
+        b == CHOOSE x \in A : \A y \in A : x >= y
+        pats == {<< G(<< <<a>> >>, FALSE, FALSE) >>,
+                 << G(<< <<a>>, <<b>> >>, TRUE, FALSE) >>,
+                 << G(<< <<a>> >>, TRUE, FALSE), G(<< <<b>>, <<a, b>> >>, TRUE, FALSE) >>,
+                 << G(<< <<a>> >>, FALSE, FALSE), G(<< <<b>> >>, TRUE, TRUE) >>,
+                 << G(<< <<b>>, <<b, b>> >>, FALSE, FALSE), G(<< <<b>> >>, FALSE, TRUE) >>,
+                 << G(<< <<a, a>>, <<a>> >>, TRUE, FALSE), G(<< <<a>> >>, TRUE, TRUE), G(<< <<b>> >>, FALSE, FALSE) >>}
+        seqs == {<< <<x>>, <<y>> >> : x \in A, y \in A} \cup {<< <<a>>, <<b>>, <<a>> >>}
+    IN UNION {{T(c, "find", n, <<>>, <<>>) : n \in needles(A)}
+              \cup {T(c, "nocase", n, <<>>, <<>>) : n \in needles(A2)}
+              \cup {T(c, "split", n, <<>>, <<>>) : n \in needles(A)}
+              \cup {T(c, "trim", SetToSeq(S), <<>>, <<>>) : S \in {X \in SUBSET A : Cardinality(X) \in 1..2}}
+              \cup {T(c, "regex", <<>>, p, <<>>) : p \in pats}
+              \cup {T(c, op, SetToSeq(S), <<>>, f) : op \in {"sequence", "sequence_nocase"}, f \in seqs, S \in {{}, {b}, A}}
+             : c \in TextContainers}
+       \cup SegmentOps
+
 Has(x) == x \in Reads
 ReadOps ==
     (IF Has("lookup") THEN SetToSeq(LookupOps) ELSE <<>>)
     \o (IF Has("offsets") THEN SetToSeq(OffsetOps) \o SetToSeq(AnnOps) \o SetToSeq(ReportOps) ELSE <<>>)
     \o (IF Has("anntext") THEN SetToSeq(AnnOps) \o SetToSeq(ReportOps) ELSE <<>>)
     \o (IF Has("bytes") THEN SetToSeq(ByteOps) ELSE <<>>)
+    \o (IF Has("relrows") THEN SetToSeq(RelRowOps) ELSE <<>>)
+    \o (IF Has("related") THEN SetToSeq(RelatedOps) ELSE <<>>)
+    \o (IF Has("segment") THEN SetToSeq(SegmentOps) ELSE <<>>)
+    \o (IF Has("textops") THEN SetToSeq(TextOpOps) ELSE <<>>)
 
 \* EmitAll (used with VIEW View): one behaviour per distinct reachable state, so that read-only questions are asked
 \* once per state instead of once per history
